@@ -218,8 +218,10 @@ CLAIMED["C16"] = (
     "traces are bound by trace validation (AsyncTrace)",
     "Outcomes {silent, values incl. 0/1/0xFE/0xFF, framing error} are assigned per wire entry by the fake gateway and "
     "logged with the issuing task, so TLC can tell whose answer each caller received.",
-    "Trusted: as C15; fake buses answer only frames the specification's tables mark as queries.",
-    "DESIGN.md §5 C16")
+    "Trusted: as C15; fake buses answer only frames the specification's tables mark as queries. Extension (outside "
+    "the anchored files, never a verdict): LegacySync.tla models the synchronous legacy hasseb / tridonic send loops, "
+    "TLC checks them and three named deviations, all terminal states are replayed on the real drivers (drift 0).",
+    "DESIGN.md §5 C16, §15.18")
 
 CLAIMED["C17"] = (
     "model_checking",
